@@ -278,6 +278,61 @@ def spec_match_item_keys(nparts, parents):
                notes=['relational: item_name and keys differing only in letter case; use_pattern_matching=False'])
 
 
+# ---- ItemFactory.get_or_create_module_definitions_from_candidates: the name filter ignores letter case -----------
+FACT = 'loki/batch/item_factory.py'
+
+
+def spec_candidates():
+    """relational: two look-ups whose `name` differs only in letter case select the same definition items; and a
+    definition whose (canonical, lower-case) local name equals the folded look-up name is selected"""
+    class ModuleItem:
+        def __init__(self, defs):
+            self.defs, self.name = defs, 'mod'
+
+        def create_definition_items(self, **kw):
+            return list(self.defs)
+
+    class Cache(dict):
+        pass
+
+    class Factory:
+        def __init__(self, defs):
+            self.item_cache = Cache({'mod': ModuleItem(defs)})
+    fn = inline(FACT, 'ItemFactory.get_or_create_module_definitions_from_candidates', {'ModuleItem': ModuleItem})
+    HASH = z3.StringVal('#')
+
+    def setup(spec):
+        c = ctx()
+        local = SStr(c.fresh(z3.StringSort(), 'definition_local_name'))
+        scope = SStr(c.fresh(z3.StringSort(), 'definition_scope'))
+        for x in (local, scope):
+            c.assume(_LOWER(x.t) == x.t)                       # item names are canonical (the factory lower-cases them)
+            c.assume(z3.Not(z3.Contains(x.t, HASH)))
+        item = ItemModel(SStr(z3.Concat(scope.t, HASH, local.t)))
+        n1, n2 = SStr(c.fresh(z3.StringSort(), 'lookup_name_run0')), SStr(c.fresh(z3.StringSort(), 'lookup_name_run1'))
+        c.assume(_LOWER(n1.t) == _LOWER(n2.t))
+        env = {'item': item, 'local': local, 'names': (n1, n2)}
+        return (env,), {}, env
+
+    def run(env):
+        return [fn(Factory([env['item']]), env['names'][k], None, ['mod']) for k in (0, 1)]
+
+    def post(env, r):
+        a, b = r
+        la, lb = len(a), len(b)
+        hit = _LOWER(env['names'][0].t) == env['local'].t
+        return [('same-selection-for-both-spellings', z3.BoolVal(la == lb)),
+                ('folded-name-selects-the-definition', z3.Implies(hit, z3.BoolVal(la == 1))),
+                ('other-names-select-nothing', z3.Implies(z3.Not(hit), z3.BoolVal(la == 0)))]
+
+    def decode(env, m, r):
+        ev = lambda t: m.eval(t, model_completion=True)
+        gs = lambda x: (ev(x.t).as_string() if z3.is_string_value(ev(x.t)) else '')
+        return {'function': 'candidates', 'local': gs(env['local']), 'name_a': gs(env['names'][0]), 'name_b': gs(env['names'][1])}
+    return _mk('ItemFactory.get_or_create_module_definitions_from_candidates', FACT, setup, post, decode=decode, fn=run,
+               notes=['relational: the look-up name in two spellings; one module with one definition item of symbolic name'])
+
+
 def bounded_standin(obname, tier):
     """stand-in for an undecided match_item_keys obligation: native enumeration of case permutations"""
     if 'match_item_keys' not in obname:
@@ -306,7 +361,7 @@ bounded_standin.cache = None
 def specs(tier='quick'):
     return [spec_item_eq_hash(), spec_scope_local_name(), spec_duplicate_names(), spec_duplicate_init(),
             spec_match_item_keys(1, False), spec_match_item_keys(2, False), spec_match_item_keys(3, False),
-            spec_match_item_keys(2, True)]
+            spec_match_item_keys(2, True), spec_candidates()]
 
 
 META = {
